@@ -20,11 +20,14 @@ AQuad == /\ out.op = "init" /\ c.su <= 5 /\ c.sv <= 5
 Trims == { << <<5, 5>>, <<15, 5>>, <<15, 15>>, <<5, 15>>, <<5, 5>> >>,
            << <<3, 3>>, <<17, 5>>, <<9, 17>>, <<3, 3>> >>,
            << <<7, 1>>, <<13, 1>>, <<13, 19>>, <<7, 19>>, <<7, 1>> >> }
+\* the same loops listed clockwise: the trimmed region is the same (the winding number is -1 instead of 1)
+RevSeq(q) == [i \in 1..Len(q) |-> q[Len(q) + 1 - i]]
+AllTrims == Trims \cup {RevSeq(t) : t \in Trims}
 ATrim(poly) == /\ out.op = "init" /\ c.su = 2 /\ c.sv = 2          \* one representative initial state
    /\ out' = [op |-> "trim", poly |-> poly, n |-> 10, unit |-> 2,
               cls |-> [a \in 1..10 |-> [b \in 1..10 |-> CellClass(2 * (a - 1), 2 * (b - 1), 2, poly)]]]
    /\ UNCHANGED c
-Next == (\E s \in Spacings(c.su, c.sv) : ATri(s)) \/ AQuad \/ (\E p \in Trims : ATrim(p))
+Next == (\E s \in Spacings(c.su, c.sv) : ATri(s)) \/ AQuad \/ (\E p \in AllTrims : ATrim(p))
 Spec == Init /\ [][Next]_vars
 T_Valid == out.op = "tri" => ValidTriangulation(out.pos, out.tris, c.su - 1, c.sv - 1) /\ Len(out.tris) = 2 * (out.nu - 1) * (out.nv - 1)
 T_TrimClasses == out.op = "trim" => \E a, b \in 1..10 : out.cls[a][b] = "inside" /\ \E a2, b2 \in 1..10 : out.cls[a2][b2] = "outside"
